@@ -144,6 +144,55 @@ def _observations(seed):
         if abs(f.sum() - (wp[-1, c] - wp[0, c])) > 1e-9:
             notes.append(f"TxElectricWire component {c} sums to {f.sum()}, "
                          f"electrodes differ by {wp[-1, c] - wp[0, c]}")
+    # a grid far from the origin (UTM-like coordinates): a wire with a short
+    # jog (a few metres) still sums to last - first electrode and is the sum
+    # of its segments - lengths count in metres, not relative to coordinates
+    org = np.array([5.0e5, 6.5e6, -2.0e3])
+    hb = [a*60.0 for a in h]
+    gbig = emg3d.TensorMesh(hb, org)
+    eb = [a.sum() for a in hb]
+    nu_ = rng.integers(3, 7)
+    up = org + np.array([[rng.uniform(0.1, 0.9)*eb[d] for d in range(3)]
+                         for _ in range(nu_)])
+    j = rng.integers(1, nu_)
+    up = np.insert(up, j, up[j-1] + np.array(
+        [rng.uniform(2, 4), rng.uniform(-3, 3), 0.0]), axis=0)
+    uw = fields.get_source_field(gbig, emg3d.TxElectricWire(up), None)
+    usegs = sum(fields._dipole_vector(gbig, up[i:i+2]).field
+                for i in range(len(up)-1))
+    if not np.allclose(uw.field, usegs, rtol=1e-9, atol=1e-9):
+        notes.append("UTM-like grid: wire with a short jog is not the sum of "
+                     "its segments")
+    for c, f in enumerate((uw.fx, uw.fy, uw.fz)):
+        if abs(f.sum() - (up[-1, c] - up[0, c])) > 1e-6:
+            notes.append(f"UTM-like grid: wire component {c} sums to "
+                         f"{f.sum()}, electrodes differ by "
+                         f"{up[-1, c] - up[0, c]}")
+    # sources given as plain coordinates: every accepted format of a magnetic
+    # dipole gives the field of the corresponding TxMagneticDipole
+    cm = np.array([rng.uniform(0.3, 0.7)*ext[d] for d in range(3)])
+    azm, elm, lnm = rng.uniform(-180, 180), rng.uniform(-60, 60), \
+        rng.uniform(0.3, 0.8)
+    dm = electrodes.point_to_dipole((*cm, azm, elm), lnm)
+    refm = fields.get_source_field(
+        grid, emg3d.TxMagneticDipole((*cm, azm, elm), length=lnm,
+                                     strength=1.5), 2.0).field
+    for how, raw, kw in (
+            ("(x, y, z, azimuth, elevation)", (*cm, azm, elm),
+             {"length": lnm}),
+            ("(x1, x2, y1, y2, z1, z2)", dm.ravel('F'), {}),
+            ("[[x1, y1, z1], [x2, y2, z2]]", dm, {}),
+            ("[[x1, y1, z1], [x2, y2, z2]] as list", dm.tolist(), {})):
+        try:
+            gotm = fields.get_source_field(grid, raw, 2.0, strength=1.5,
+                                           electric=False, **kw).field
+        except Exception as e:  # noqa
+            notes.append(f"magnetic source given as {how}: {type(e).__name__}")
+            continue
+        if not np.allclose(gotm, refm, rtol=1e-9, atol=1e-12*np.abs(
+                refm).max()):
+            notes.append(f"magnetic source given as {how} differs from the "
+                         f"TxMagneticDipole of the same dipole")
     # very short dipoles are dipoles: support and distribution as
     # _dipole_vector (validated against DipoleOps.tla) gives them
     # (emg3d refuses electrodes closer than np.allclose's default tolerance,
